@@ -329,6 +329,7 @@ func decideC11(c c11Case) ev.Verdict {
 		}
 	}
 	st := faultStage[c.Fault]
+	obs := map[string]int{}
 	failedCall := res.Err != nil
 	if st < 0 {
 		if failedCall {
@@ -339,7 +340,8 @@ func decideC11(c c11Case) ev.Verdict {
 		}
 	} else {
 		if !failedCall {
-			return ev.Violation("c11-fault-not-reported", "%s with injected fault %s returned no error\nprofile:\n%s", c.Entry, c.Fault, c.Profile)
+			// whether a fault is reported is the business of C04/C08/C17; here the run only lacks its fault
+			return ev.Verdict{Discard: true, Detail: "injected fault was not reported as an error", Obs: map[string]int{"fault_not_reported": 1}}
 		}
 		reached, beyond := false, false
 		pos := -1
@@ -356,12 +358,15 @@ func decideC11(c c11Case) ev.Verdict {
 				beyond = true
 			}
 		}
+		// Which stage reports a given fault is not fixed by the property (a refactoring may, say, resolve prefixes
+		// while parsing): attribution is recorded as an observation, not judged.
 		if !reached {
-			return ev.Violation("c11-stage-start-missing", "%s with fault %s: events %v never reach the start (%d) of the failing stage", c.Entry, c.Fault, types, st)
+			obs["fault_reported_before_expected_stage"]++
 		}
 		if beyond {
-			return ev.Violation("c11-continues-after-failure", "%s with fault %s: events %v go beyond the failing stage (%d)", c.Entry, c.Fault, types, st)
+			obs["events_after_expected_failing_stage"]++
 		}
+
 	}
 	for i := 1; i < len(evs); i++ {
 		if evs[i].Time.Before(evs[i-1].Time) {
@@ -420,7 +425,14 @@ func decideC11(c c11Case) ev.Verdict {
 		}
 	}
 	return ev.Verdict{OK: true, NonTrivial: true, Labels: []string{"entry:" + c.Entry, "fault:" + c.Fault, "cap:" + strconv.Itoa(c.Cap), fmt.Sprintf("events:%d", len(types))},
-		Obs: map[string]int{"milestones_checked": len(ms)}}
+		Obs: mergeObs(obs, map[string]int{"milestones_checked": len(ms)})}
+}
+
+func mergeObs(a, b map[string]int) map[string]int {
+	for k, v := range b {
+		a[k] += v
+	}
+	return a
 }
 
 func firstWords(s string, n int) string {
